@@ -19,6 +19,15 @@
 //!       and are what the Lean model (Winter/Model/Parse.lean) needs: output `<parse>[ <front>]`, compared
 //!       with the model.
 //!
+//!   refv <field> <hasher> <q.b.g.x.f.r> <trace seed> <AirDesc line> <acceptable> <public inputs> <label> <hex>
+//!       (the format of the C03 harness) the same literal bytes as a sample of the `raw` lines of the base
+//!       configurations the EXECUTABLE REFERENCE VERIFIER of Winter/Model/RefVerifier.lean is instantiated for (64-bit
+//!       field with Rp64_256 / RpJive64_256, 62-bit field with Rp62_248; AIRs with or without auxiliary segment, no
+//!       Lagrange kernel column): `Proof::from_bytes` + the real `verify` under MinConjecturedSecurity(0); output =
+//!       verdict kind `ok | parse-err | err:<VerifierError kind> | panic`, compared with `refVerify` on the same
+//!       bytes (the theorem `verify_whole_safe_partial` of WinterProofs/C06.lean is about that function).  The
+//!       bytes are judged by the oracle on the `raw` line next to it; this line only ties the model to the code.
+//!
 //!   fri x <label> <log2 n> <blowup> <folding> <remainder degree> <queries> <edits>
 //!       the stand-alone FRI entry points on an honest FRI proof (64-bit field, Blake3_256) after the edits:
 //!       `FriProof::read_from_bytes`, `DefaultVerifierChannel::new`, `FriVerifier::new`, `verify`;
@@ -325,6 +334,7 @@ const POW5: &str = "w=1;l=8;e=1;j=0;p=;g=S?:+^5c0k5;t=5:-n0+^5c0k5;a=s0.0";
 const AUX16: &str = "w=2;l=16;e=7;j=0;p=;g=S?:+^2c0k2,S?:+^2c1k4;t=2:-n0+^2c0k2,2:-n1+^2c1k4;a=q1.0.16;x=2.2.0;h=F:+*r1c1r0,Ar1:/*a1++c0r0a0+c1r0;u=1:-a0+*r1c1r0,2:-*b1+c1r0*a1++c0r0a0;b=q0.0.16=+*r1w0r0,s1.0=r1";
 const AUXW: &str = "w=1;l=16;e=1;j=0;p=;g=S?:+^2c0k3;t=2:-n0+^2c0k3;a=s0.0;x=3.2.0;h=F:+c0r0,F:*c0r1,F:+*c0r0r1;u=1:-a0+c0r0,1:-a1*c0r1,1:-a2+*c0r0r1;b=s0.0=+v0r0";
 const LAG8: &str = "w=4;l=8;e=1;j=0;p=;g=S?:+*c0c1k3,S?:+c1c0,S?:+*c2c3k3,S?:+c3c2;t=2:-n0+*c0c1k3,1:-n1+c1c0,2:-n2+*c2c3k3,1:-n3+c3c2;a=s0.0,s3.7;x=2.1.1;h=Ak1:*a0+c0r0;u=2:-b0*a0+c0r0;b=s0.0=k1";
+const AUXP8: &str = "w=2;l=8;e=1;j=0;p=;g=S?:+c0k7,R;t=1:-n0+c0k7;a=s0.0;x=1.1.0;h=Ak1:*a0+c0r0;u=2:-b0*a0+c0r0;b=s0.0=k1";
 const PER32: &str = "w=2;l=32;e=1;j=0;p=1.2.3.4|5.7;g=S?:+*c0p0p1,S1:+c1c0;t=1.4.2:-n0+*c0p0p1,1:-n1+c1c0;a=s0.0,s1.31";
 
 pub const CFGS: &[Cfg] = &[
@@ -340,6 +350,9 @@ pub const CFGS: &[Cfg] = &[
     Cfg { name: "lag8", field: FieldId::F64, hash: HashId::Blake3_256, opts: "2.4.0.1.4.3", seed: 12, desc: LAG8, lenient: false },
     Cfg { name: "fib62", field: FieldId::F62, hash: HashId::Rp62_248, opts: "2.4.0.1.2.1", seed: 7, desc: FIB16, lenient: false },
     Cfg { name: "fib62q", field: FieldId::F62, hash: HashId::Blake3_256, opts: "1.2.3.2.2.0", seed: 8, desc: FIB8, lenient: false },
+    // auxiliary segments under the hashers the reference verifier is instantiated for
+    Cfg { name: "auxrp", field: FieldId::F64, hash: HashId::Rp64_256, opts: "3.2.1.2.2.3", seed: 14, desc: AUXW, lenient: false },
+    Cfg { name: "aux62", field: FieldId::F62, hash: HashId::Rp62_248, opts: "2.2.0.1.4.1", seed: 15, desc: AUXP8, lenient: false },
     // proofs only a non-standard prover can make
     Cfg { name: "q255", field: FieldId::F64, hash: HashId::Blake3_256, opts: "255.2.0.1.2.0", seed: 10, desc: FIB8, lenient: true },
     Cfg { name: "per32", field: FieldId::F64, hash: HashId::Blake3_192, opts: "4.2.0.1.4.7", seed: 9, desc: PER32, lenient: false },
@@ -1196,6 +1209,77 @@ fn exec_raw(t: &[&str]) -> Outcome {
     into_outcome(run_case(&bytes, Some(&vb), "c"), false)
 }
 
+// ------------------------------------------------------------------------------------ refv (reference verifier tie)
+/// is the executable reference verifier instantiated for this base configuration
+fn refv_modelled(b: &Base) -> bool {
+    matches!(b.cfg.hash, HashId::Rp64_256 | HashId::RpJive64_256 | HashId::Rp62_248) && !b.desc.has_lagrange() && !b.cfg.lenient
+}
+
+fn refv_line(label: &str, b: &Base, bytes: &[u8]) -> String {
+    let pubs = if b.pubs.is_empty() { "-".to_string() } else { b.pubs.iter().map(|v| v.to_string()).collect::<Vec<_>>().join(",") };
+    format!(
+        "refv {} {} {} {} {} mc:0 {} {} {}",
+        b.cfg.field.name(),
+        b.cfg.hash.name(),
+        b.cfg.opts,
+        b.cfg.seed,
+        b.cfg.desc,
+        pubs,
+        label,
+        if bytes.is_empty() { "-".to_string() } else { hex(bytes) }
+    )
+}
+
+/// verdict class of a verifier error: the variant name; FRI errors keep the inner variant and its layer depth
+fn refv_kind(e: &VerifierError) -> String {
+    use winter_fri::VerifierError as F;
+    match e {
+        VerifierError::FriVerificationFailed(f) => match f {
+            F::InvalidLayerFolding(d) => format!("err:FriVerificationFailed.InvalidLayerFolding:{}", d),
+            F::DegreeTruncation(_, _, d) => format!("err:FriVerificationFailed.DegreeTruncation:{}", d),
+            _ => format!("err:{}", verifier_error_kind(e)),
+        },
+        _ => format!("err:{}", verifier_error_kind(e)),
+    }
+}
+
+/// `refv <field> <hasher> <opts> <seed> <desc> <acceptable> <pubs> <label> <hex>`: everything is on the line
+fn exec_refv(t: &[&str]) -> Outcome {
+    if t.len() != 9 {
+        return Outcome::ok("bad-op");
+    }
+    let (field, hash, desc) = match (FieldId::parse(t[0]), HashId::parse(t[1]), AirDesc::parse(t[4])) {
+        (Some(f), Some(h), Ok(d)) if h.compatible(f) => (f, h, Arc::new(d)),
+        _ => return Outcome::ok("bad-op"),
+    };
+    let acceptable = match t[5].strip_prefix("mc:").and_then(|r| r.parse::<u32>().ok()) {
+        Some(m) => AcceptableOptions::MinConjecturedSecurity(m),
+        None => return Outcome::ok("bad-op"),
+    };
+    let pubs: Vec<u128> = if t[6] == "-" {
+        vec![]
+    } else {
+        match t[6].split(',').map(|x| x.parse::<u128>().ok()).collect::<Option<Vec<_>>>() {
+            Some(p) => p,
+            None => return Outcome::ok("bad-op"),
+        }
+    };
+    if t[8] != "-" && (t[8].len() % 2 != 0 || !t[8].bytes().all(|b| b.is_ascii_hexdigit())) {
+        return Outcome::ok("bad-op");
+    }
+    let bytes = if t[8] == "-" { vec![] } else { unhex(t[8]) };
+    let proof = match guarded(|| Proof::from_bytes(&bytes)) {
+        Err(_) => return Outcome::ok("panic"),
+        Ok(Err(_)) => return Outcome::ok("parse-err"),
+        Ok(Ok(p)) => p,
+    };
+    match guarded(|| verify(&desc, field, hash, &pubs, proof, &acceptable)) {
+        Ok(Ok(())) => Outcome::ok("ok"),
+        Ok(Err(e)) => Outcome::ok(refv_kind(&e)),
+        Err(_) => Outcome::ok("panic"),
+    }
+}
+
 // ------------------------------------------------------------------------------------ stand-alone FRI
 /// an honest FRI proof over the 64-bit field with Blake3_256: (proof bytes, layer commitments, evaluations,
 /// query positions)
@@ -1609,6 +1693,10 @@ fn le_hex(v: u128, len: usize) -> String {
 struct Gen<'a> {
     emit: &'a mut dyn FnMut(String),
     raw_budget: usize,
+    /// every `refv_every`-th model-compared case of a configuration the reference verifier covers is also emitted as
+    /// a `refv` line (0: never); `raw_seen` counts the model-compared cases of the current configuration
+    refv_every: usize,
+    raw_seen: usize,
     /// number of mutants emitted per family (label), to rotate the acceptance policies inside every family
     fam: HashMap<String, usize>,
 }
@@ -1621,6 +1709,14 @@ impl<'a> Gen<'a> {
             if apply_edits(&mut bytes, edits).is_ok() && bytes.len() <= 6000 {
                 self.raw_budget -= 1;
                 (self.emit)(format!("raw x {} {} {} {}", label, vcfg, air_params(b), hex(&bytes)));
+                self.raw_seen += 1;
+                // the families that change the context (trace info / options: the AIR constructor and the AIR's
+                // callbacks then see another trace shape, where the real code panics) are sampled three times as densely
+                let fam = label.split(':').next().unwrap_or(label);
+                let every = if ["ctx2", "assembled", "field", "swap"].contains(&fam) { (self.refv_every / 3).max(1) } else { self.refv_every };
+                if self.refv_every > 0 && self.raw_seen % every == 1 % every && refv_modelled(b) {
+                    (self.emit)(refv_line(label, b, &bytes));
+                }
                 return;
             }
         }
@@ -2503,7 +2599,10 @@ impl Prop for P {
             }
         }
         let per_cfg = if tier == Tier::Thorough { 12_000 } else { 3_500 };
-        let mut g = Gen { emit, raw_budget: 200, fam: HashMap::new() };
+        // about 100-250 (quick) / 1000 and more (thorough) of the model-compared cases of each configuration with a Rescue hasher
+        // go to the reference verifier too
+        let refv_every = if tier == Tier::Thorough { 12 } else { 48 };
+        let mut g = Gen { emit, raw_budget: 200, fam: HashMap::new(), refv_every: 0, raw_seen: 0 };
         // purely hostile strings: empty, short, random, all-equal bytes
         for k in 0..64usize {
             let z = vec![0u8; k];
@@ -2526,6 +2625,12 @@ impl Prop for P {
             let small = b.cfg.name == "sq8rp" || b.cfg.name == "fib62q" || (tier == Tier::Thorough && b.bytes.len() <= 1130);
             let mut r = rng.fork();
             g.raw_budget = per_cfg;
+            g.refv_every = refv_every;
+            g.raw_seen = 0;
+            if refv_modelled(b) {
+                // the valid proof itself
+                (g.emit)(refv_line("valid", b, &b.bytes));
+            }
             gen_for(&mut g, &mut r, b, tier, small, &bases);
         }
     }
@@ -2535,6 +2640,7 @@ impl Prop for P {
         match t.first().copied() {
             Some("mut") => exec_mut(&t[1..]),
             Some("raw") => exec_raw(&t[1..]),
+            Some("refv") => exec_refv(&t[1..]),
             Some("fri") => exec_fri(&t[1..]),
             Some("frih") => exec_frih(&t[1..]),
             Some("mrk") => exec_mrk(&t[1..]),
@@ -2556,6 +2662,11 @@ impl Prop for P {
 
     fn class(&self, line: &str, out: &str) -> String {
         let t: Vec<&str> = line.split(' ').collect();
+        if t.first() == Some(&"refv") {
+            let label = t.get(8).copied().unwrap_or("?");
+            let label = label.split(':').next().unwrap_or(label);
+            return format!("refv.{}.{}:{}", t.get(2).copied().unwrap_or("?"), label, out.split(':').take(2).collect::<Vec<_>>().join(":"));
+        }
         let label = t.get(2).copied().unwrap_or("?");
         let label = label.split(':').next().unwrap_or(label);
         let o: Vec<&str> = out.split(' ').map(|x| x.split(':').next().unwrap_or(x)).collect();
